@@ -74,6 +74,7 @@ PROBES = {
         "composed-with-conditioned-map",
         "executed-in-perturbed-context",
         "battery-sweep-after-history",
+        "battery-entry-rebuilt-after-an-operation",
         "node-cut-map-recomputed",
     ]
 }
@@ -589,6 +590,8 @@ class World(object):
                     self.maps[op["id"]] = {"key": ("compose",) + a["key"] + b["key"], "m": None, "exc": type(e).__name__, "born": self.step_no, "fresh": True}
             elif k == "sweep":
                 viol = self.sweep(op)
+            elif k == "probe":
+                viol = self.sweep(op, only=op["k"])
             elif k == "nodecut":
                 # a node is cut (what cfg.graph does when a later block splits it): the node's
                 # map is recomputed for the shorter block; the map the client got from the
@@ -746,8 +749,10 @@ class World(object):
             viol["signature"] = "heapsim-isa:%s" % viol["class"]
         return viol
 
-    def sweep(self, op):
-        """rebuild and observe a fixed battery of single-instruction blocks of one ISA"""
+    def sweep(self, op, only=None):
+        """rebuild and observe a fixed battery of single-instruction blocks of one ISA
+        (only=k: just the k-th entry of the battery -- a probe placed right after an
+        arbitrary operation of the history)"""
         from amoco.cas.mapper import mapper
 
         name = op["isa"]
@@ -761,6 +766,21 @@ class World(object):
         idx = list(range(len(S))) if len(S) <= op["n"] else sorted(rr.sample(range(len(S)), op["n"]))
         # same battery, another order each time: what precedes an entry is part of the history
         random.Random(op.get("order", 0)).shuffle(idx)
+        if only is not None:
+            j = idx[(only // len(op["T"])) % len(idx)]
+            ti = only % len(op["T"])
+            sp = S[j]
+            b = self.I.encode(sp, random.Random((op["seed"] << 12) ^ (j << 1) ^ ti), endian=en if sp.size != 0 else 1, tail=6 if sp.size == 0 else 0, template=op["T"][ti], flip=0.0).hex()
+            cl = op.get("client", 0)
+            self.st.hit("probe:battery-entry-rebuilt-after-an-operation")
+            for sub in ({"op": "block", "id": "pr", "isa": name, "ins": [b], "addr": 0x1000, "client": cl}, {"op": "map", "id": "mpr", "block": "pr", "client": cl}, {"op": "eval", "map": "mpr", "salts": [0, 3], "client": cl, "nopristine": True}):
+                v = self.step(sub)
+                if v is not None:
+                    v["detail"]["sweep_entry"] = [sp.format, b]
+                    return v
+            self.maps.pop("mpr", None)
+            self.blocks.pop("pr", None)
+            return None
         self.st.hit("probe:battery-sweep")
         first_time = ("sweep-done", name, op["seed"]) not in self.seen_count
         self.seen_count[("sweep-done", name, op["seed"])] = 1
@@ -855,6 +875,8 @@ class Gen(object):
         for n in sorted(set(isas)):
             self.sweeps[n] = {"op": "sweep", "isa": n, "T": [r.getrandbits(128), r.getrandbits(128)], "n": SWEEP_N, "seed": r.getrandbits(32), "client": 0}
         self.pending = [dict(v) for _, v in sorted(self.sweeps.items())]
+        self.probe_due = False
+        self.probe_pos = {}
 
     def newid(self, p):
         self.nid += 1
@@ -921,6 +943,12 @@ class Gen(object):
     def next(self, r, _):
         if self.pending:
             return self.pending.pop(0)
+        if self.probe_due and r.random() < 0.6:
+            self.probe_due = False
+            c0 = r.choice(self.clients)
+            self.probe_pos[c0["isa"]] = self.probe_pos.get(c0["isa"], 0) + 1
+            return dict(self.sweeps[c0["isa"]], op="probe", k=self.probe_pos[c0["isa"]], client=self.clients.index(c0))
+        self.probe_due = True
         c = r.choice(self.clients)
         ci = self.clients.index(c)
         kinds = [("new", 3), ("eval_old", 5), ("rebuild", 3), ("remap", 1.5), ("elsewhere", 1), ("compose", 1.6), ("extend", 2.5), ("str", 1), ("pickle", 0.7), ("exec1", 1.5), ("exec_ctx", 1.5), ("abort", 0.8), ("mode", 0.3)]
